@@ -291,6 +291,11 @@ func (in *Interp) conv(tDst, tSrc types.Type, x value) value {
 			}
 			panic(unsupported{"conversion of symbolic integer to string"})
 		case sliceVal:
+			if len(xv) == 1 {
+				if o, ok := xv[0].(*opaque); ok && o.kind == "strbytes" {
+					return o.data
+				}
+			}
 			// []byte or []rune -> string
 			if s, ok := ut_src.(*types.Slice); ok {
 				if b, ok := s.Elem().Underlying().(*types.Basic); ok && b.Kind() == types.Int32 {
